@@ -136,6 +136,7 @@ def main(argv=None):
     except ValueError:
         seed = 0
     os.environ.setdefault('PYTHONHASHSEED', '0')
+    os.environ['VERIF_RUN_ID'] = str(os.getpid())
     sys.path.insert(0, VERIF)
     from vlib import build
     t0 = time.time()
